@@ -258,6 +258,7 @@ func c15SchedScenario(c *fw.Ctx, sp c15Spec) schedScenario {
 }
 
 func c15SchedRun(c *fw.Ctx) {
+	c.Share(9, func() { exploreSched(c, c15JoinScenario(c)) })
 	specs := c15Specs()
 	for i, sp := range specs {
 		c.Share(len(specs)-i, func() { exploreSched(c, c15SchedScenario(c, sp)) })
@@ -267,6 +268,10 @@ func c15SchedRun(c *fw.Ctx) {
 func c15SchedReplay(c *fw.Ctx, raw json.RawMessage) {
 	var cas schedCase
 	_ = json.Unmarshal(raw, &cas)
+	if sc := c15JoinScenario(c); sc.ID == cas.Scenario {
+		replaySched(c, sc, raw)
+		return
+	}
 	for _, sp := range c15Specs() {
 		if sp.ID == cas.Scenario {
 			replaySched(c, c15SchedScenario(c, sp), raw)
